@@ -10,6 +10,7 @@ R1.4  constant templates are Python: CONFIG_TEMPLATE, the core / auth / mocks __
       block templates parse once their holes are replaced by identifiers
 R1.5  re-exports resolve: every `from .X import N` of the constant core/auth __init__ templates names a shipped
       runtime module that defines N, and every name in a constant __all__ is imported above it
+R1.6  a quoted forward reference is never an operand of `|` (`"Node" | None` cannot be evaluated): optional forward references are quoted as a whole
 R1.7  writer typestate: indent()/dedent() are balanced on every path of every emitting function (enumerated exception:
       the signature generator leaves +1 that the method generator closes)
 R1.8  de-collision precedes emission and the set of schemas that get files is the set that is exported/imported: a
@@ -107,6 +108,43 @@ def run(repo: Repo, rep: Report, tier: str) -> None:
     from rules._reuse import reuse
 
     reuse(repo, rep, "c07", {"R7.4": "R1.10", "R7.5": "R1.10"})
+
+    # ---------------------------------------------------------------- R1.6 a quoted forward reference is never an operand of `|`
+    # `"Node" | None` is evaluated when the dataclass is created: str | None raises TypeError, the model module cannot be imported.
+    ts = repo.func("types.services.type_service:UnifiedTypeService._format_resolved_type")
+    tcfg = CFG(ts.node)
+    tdom = tcfg.dominators()
+    n16 = 0
+    for nd in tcfg.nodes:
+        if nd.kind != "stmt" or not isinstance(nd.ast, ast.Assign) or nd.copy:
+            continue
+        v = nd.ast.value
+        parts = [p_.value for p_ in v.values if isinstance(p_, ast.Constant)] if isinstance(v, ast.JoinedStr) else []
+        holes = [p_.value for p_ in v.values if isinstance(p_, ast.FormattedValue)] if isinstance(v, ast.JoinedStr) else []
+        if not (parts and str(parts[-1]).rstrip().endswith("| None") and len(holes) == 1 and isinstance(holes[0], ast.Name) and not str(parts[0]).startswith('"')):
+            continue
+        n16 += 1
+        var = holes[0].id
+        from sa.cfg import guards as _g16
+
+        safe = False
+        for g, pol in _g16(tcfg, nd.id, tdom):
+            if g.kind != "test" or pol is None:
+                continue
+            t = g.ast
+            negs = 0
+            mentions_quote = any(isinstance(c, ast.Call) and isinstance(c.func, ast.Attribute) and c.func.attr == "startswith" and isinstance(c.func.value, ast.Name)
+                                 and c.func.value.id == var and c.args and const_str(c.args[0]) == '"' for c in ast.walk(t))
+            if mentions_quote and pol is False:
+                safe = True  # we are on the branch where the type string is NOT a quoted name
+        sub = f"{ts.module.relpath}:_format_resolved_type appends `| None` (#{n16})"
+        if safe:
+            rep.ok("R1.6", sub, f"`{norm(nd.ast)[:60]}` runs only where `{var}` is not a quoted forward reference (that case is quoted as a whole)", ts.loc(nd.ast))
+        else:
+            rep.violation("R1.6", sub, f"{ts.fq}|quoted-operand-of-union",
+                          f"`{norm(nd.ast)[:60]}` can produce `\"Name\" | None`: evaluating the annotation raises TypeError (str | None), so a model with an "
+                          "optional reference to itself (or to a schema in an import cycle) cannot be imported", ts.loc(nd.ast))
+    rep.require(n16 >= 1, "R1.6: the statement that appends `| None` was not found in _format_resolved_type (anchor)")
 
     # ---------------------------------------------------------------- R1.9
     _dedup_site(repo.func("visit.endpoint.processors.parameter_processor:EndpointParameterProcessor.process_parameters"), "operation parameters",
